@@ -235,6 +235,12 @@ func pinnedCases() []pinned {
 		innerCase("C03", "C03/method_path_no_leading_slash.json", "both", "c01", "PinService.Do", s, "method_path_no_leading_slash")
 	}
 	{
+		s, req, _, m, _ := baseSchema("p0086")
+		m.Path = "/things/{name}"
+		req.Fields[0].Card = schema.Optional
+		innerCase("C01", "C01/optional_path_field_pointer.json", "both", "c01", "PinService.Do", s, "path_var_optional")
+	}
+	{
 		s, _, _, _, svc := baseSchema("p0034")
 		svc.Headers = []*schema.Header{{Name: "X-Request-ID", Type: "string", Format: "uuid", Required: true}}
 		innerCase("C09", "C09/uuid_header_nonhex_accepted.json", "server", "c09", "PinService.Do", s, "uuid_header_nonhex")
